@@ -21,11 +21,49 @@ class Unsupported(Exception):
 _PARSER = None
 
 
+_ADJ = None
+NONSTANDARD = {"adjacent_operators": 0}
+
+
+def _fix_adjacent_operators(src):
+    """`a * -1.0` (two adjacent operators) is not standard Fortran and fparser2 rejects
+    it although every compiler accepts it with the obvious meaning `a * (-1.0)`.  The
+    writer emits it for negative literals; it is normalised here (and counted) so that
+    the semantics can still be decided."""
+    global _ADJ
+    import re
+    if _ADJ is None:
+        _ADJ = re.compile(r"(\*\*|[*/+\-])(\s*)-\s*(\d+(?:\.\d*)?(?:[edED][+-]?\d+)?(?:_\w+)?)")
+    out = []
+    for line in src.split("\n"):
+        if line.lstrip().startswith("!"):
+            out.append(line)
+            continue
+        prev = None
+        while prev != line:
+            prev = line
+            line = _ADJ.sub(lambda m: f"{m.group(1)}{m.group(2)}(-{m.group(3)})", line)
+        out.append(line)
+    return "\n".join(out)
+
+
 def parse(src):
     global _PARSER
+    from fparser.two.utils import FortranSyntaxError
     if _PARSER is None:
         _PARSER = ParserFactory().create(std="f2008")
-    return _PARSER(FortranStringReader(src, ignore_comments=False))
+    try:
+        return _PARSER(FortranStringReader(src, ignore_comments=False))
+    except FortranSyntaxError as e:
+        fixed = _fix_adjacent_operators(src)
+        if fixed != src:
+            try:
+                t = _PARSER(FortranStringReader(fixed, ignore_comments=False))
+                NONSTANDARD["adjacent_operators"] += 1
+                return t
+            except FortranSyntaxError:
+                pass
+        raise Unsupported("fparser2 syntax error: " + str(e)[:120]) from e
 
 
 def lname(n):
